@@ -20,7 +20,7 @@ import (
 
 	gstat "gonum.org/v1/gonum/stat"
 
-	"verif/harness/internal/core"
+	"gonum.org/v1/gonum/verifharness/internal/core"
 )
 
 // tol is the relative tolerance c*n*eps with c = 2^16 and n = 8 (the largest
